@@ -100,6 +100,32 @@ CHECKS.update({
         note=SERVER_NOTE, technique=SERVER_TECH),
 })
 
+CHECKS.update({
+    "C18": dict(
+        category="fault_enumeration", design_ref="DESIGN.md 4 C18",
+        text="MpcArgs.tla is the decision table of validate(): argument classes (own index, evaluator index, output set incl. "
+             "empty / out of range / repeated / unsorted, input length -1/+1/0, circuit: library-invalid classes and "
+             "inconsistent counters / misplaced or surplus Input instructions / out-of-range Input fields) x n in {2,3} x party x "
+             "role. TLC checks that the tree's table implies what C18 demands and exports every row; each row is one real "
+             "mpc() run; Mon_C18 requires Err with zero channel operations for invalid rows, reject-or-set semantics for "
+             "repeated indices, correct results for valid rows, and no panic / no hang for every row.",
+        note="Argument classes represent their members; a class-internal special value would be missed. The circuit classes "
+             "are built by a fixed mutation of one base circuit.",
+        technique="TLA+ decision-table spec enumerated by TLC, one replay per row on the real mpc(), TLC monitor"),
+    "C19": dict(
+        category="model_checking", design_ref="DESIGN.md 4 C19",
+        text="FileBuf.tla models both variants of FileOrMemBuf (file: BufWriter, shared OS offset with read-ahead, rewind on "
+             "iter/chunks, seek-to-end on drop; memory: re-chunking by parameter). TLC checks for ALL operation sequences up to "
+             "the bound (8 quick / 9-10 thorough) that both variants return the same items and, when all appends but the last "
+             "have the chunk size, the same boundaries, and that every flush happens at the end of the file; a negative control "
+             "(no seek on drop) must violate them. All behaviours up to a smaller bound, thousands of simulated 12-operation "
+             "behaviours and large-size scripts crossing the 8 KiB buffers are replayed on the real FileOrMemBuf<u64> in both "
+             "variants and judged by Mon_C19 (incl. directory listing); engine runs under every tmp_dir assignment are judged "
+             "by Mon_C01/Mon_C09.",
+        note="Element type u64 only; the OS offset is modelled at chunk granularity.",
+        technique="TLA+ spec model-checked by TLC + replay of TLC behaviours on the real buffer + TLC monitor"),
+})
+
 NA = {}
 
 
